@@ -147,6 +147,9 @@ pub extern "C" fn verif_mark(id: u32, v: u64) {
 pub extern "C" fn verif_set_thread(_t: u32) {}
 
 #[no_mangle]
+pub extern "C" fn verif_merge() {}
+
+#[no_mangle]
 pub extern "C" fn verif_set_generation(v: u64) {
     #[cfg(arc_swap_verif)]
     arc_swap::verif_hooks::set_generation(v as usize);
